@@ -289,8 +289,63 @@ func establish(r *hx.RNG, sid int, c SessCfg) []Event {
 	return evs
 }
 
+// genC22: OPEN x configuration, twice over the same FSM (what a reconnect must forget).
+func genC22(r *hx.RNG, tr *hx.Trace) Case {
+	var c Case
+	cfg := genCfg(r, lasPool[r.Intn(len(lasPool))], "c22")
+	cfg.Hold = []int{0, 3, 4, 5, 30, 90, 65535}[r.Intn(7)]
+	c.Sess = []SessCfg{cfg}
+	open := func() Msg {
+		m := goodOpen(r, cfg)
+		m.Hold = []int{0, 1, 2, 3, 4, 5, 90, 65535}[r.Intn(8)]
+		if cfg.LAS == cfg.PAS && m.ID == cfg.RID && r.Chance(70) {
+			m.ID++
+		}
+		for k := r.Intn(3); k > 0; k-- {
+			if r.Chance(60) {
+				m = mutateOpen(r, cfg, m)
+			}
+		}
+		return m
+	}
+	round := func() {
+		if cfg.Init == 'i' || len(c.Evs) > 0 {
+			c.Evs = append(c.Evs, Event{Sid: 0, Kind: "e", Code: 1})
+		}
+		c.Evs = append(c.Evs, Event{Sid: 0, Kind: "up"}, Event{Sid: 0, Kind: "m", M: open()})
+		tr.Count("c22_open")
+		if r.Chance(75) {
+			c.Evs = append(c.Evs, Event{Sid: 0, Kind: "m", M: Msg{Kind: 'K'}})
+		}
+		if r.Chance(40) {
+			c.Evs = append(c.Evs, Event{Sid: 0, Kind: "m", M: Msg{Kind: 'U', Ann: genIDs(r, 2)}})
+		}
+		if r.Chance(30) {
+			c.Evs = append(c.Evs, Event{Sid: 0, Kind: "hp", Code: 0})
+		}
+	}
+	round()
+	for k := r.Intn(3); k > 0; k-- {
+		switch r.Intn(4) {
+		case 0:
+			c.Evs = append(c.Evs, Event{Sid: 0, Kind: "m", M: Msg{Kind: 'N', Code: 6, Sub: 2}})
+		case 1:
+			c.Evs = append(c.Evs, Event{Sid: 0, Kind: "e", Code: 2})
+		case 2:
+			c.Evs = append(c.Evs, Event{Sid: 0, Kind: "hp", Code: 1})
+		default:
+			c.Evs = append(c.Evs, Event{Sid: 0, Kind: "m", M: Msg{Kind: 'B', Variant: "uat"}})
+		}
+		round()
+	}
+	return c
+}
+
 // GenCase produces one case for the given property profile ("c23", "c07", "c21", "c22").
 func GenCase(r *hx.RNG, prof string, tr *hx.Trace) Case {
+	if prof == "c22" && r.Chance(75) {
+		return genC22(r, tr)
+	}
 	var c Case
 	las := lasPool[r.Intn(len(lasPool))]
 	ns := 1
